@@ -21,11 +21,18 @@ inductive Trig where
   | cron (f : Cron.Fields) (offset : Int)
 deriving DecidableEq, Repr, Inhabited
 
+/-- `addNanos(t, d)` of `quartz/trigger.go`: `t + d`, saturating at the largest representable time instead of
+wrapping around (`if d > 0 && next < t { return math.MaxInt64 }`).  Models Go exactly for int64 `t`, `d` whenever
+`d > 0` (the wrapped sum is `< t` exactly when the true sum exceeds `maxInt64`) or the true sum does not wrap
+below `MinInt64` (`t ≥ 0` in practice: `t` is a clock reading or a fire time).  Negative wrap-around (`d < 0`,
+`t` near `MinInt64`) is outside the model. -/
+def satAdd (t d : Int) : Int := if d > 0 ∧ t + d > maxInt64 then maxInt64 else t + d
+
 /-- `Trigger.NextFireTime(prev)`: result (`none` = error) and the trigger's new state -/
 def Trig.fire (t : Trig) (prev : Int) : Option Int × Trig :=
   match t with
-  | .simple i => (some (prev + i), t)
-  | .runOnce d false => (some (prev + d), .runOnce d true)
+  | .simple i => (some (satAdd prev i), t)
+  | .runOnce d false => (some (satAdd prev d), .runOnce d true)
   | .runOnce _ true => (none, t)
   | .script [] => (none, t)
   | .script (a :: rest) => (a, .script rest)
